@@ -108,9 +108,13 @@ def _implied_timescales(tmat, lagtime, ntimescales):
     eigenvalues = linalg.left_eigenvalues(tmat, nvals=ntimescales + 1)
     # for negative eigenvalues no timescale is defined
     eigenvalues[eigenvalues <= 0] = np.nan
-    return np.ma.divide(
+    timescales = np.ma.divide(
         - lagtime, np.log(eigenvalues[1:]),
     ).filled(np.nan)
+    # for eigenvalues on (or due to rounding beyond) the unit circle the
+    # timescale is not positive and hence not defined
+    timescales[~(np.real(timescales) > 0)] = np.nan
+    return timescales
 
 
 def _estimate_times(
